@@ -1,0 +1,162 @@
+//go:build verif
+// +build verif
+
+package redis
+
+import (
+	"io"
+	"sort"
+	"time"
+
+	"github.com/samaritan-proxy/samaritan/pb/config/service"
+)
+
+// This file only exists with the `verif` build tag. It exposes unexported
+// pieces of the package to the external verification harness.
+
+// VerifDecoder wraps the unexported decoder.
+type VerifDecoder struct{ d *decoder }
+
+// VerifNewDecoder creates a decoder with given buffer size.
+func VerifNewDecoder(r io.Reader, bufSize int) *VerifDecoder {
+	return &VerifDecoder{d: newDecoder(r, bufSize)}
+}
+
+// Decode decodes the next value.
+func (d *VerifDecoder) Decode() (*RespValue, error) { return d.d.Decode() }
+
+// VerifEncoder wraps the unexported encoder.
+type VerifEncoder struct{ e *encoder }
+
+// VerifNewEncoder creates an encoder with given buffer size.
+func VerifNewEncoder(w io.Writer, bufSize int) *VerifEncoder {
+	return &VerifEncoder{e: newEncoder(w, bufSize)}
+}
+
+// Encode encodes the value.
+func (e *VerifEncoder) Encode(v *RespValue) error { return e.e.Encode(v) }
+
+// Flush flushes the buffered data.
+func (e *VerifEncoder) Flush() error { return e.e.Flush() }
+
+// VerifBtoi64 exposes btoi64.
+func VerifBtoi64(b []byte) (int64, error) { return btoi64(b) }
+
+// VerifItoa exposes itoa.
+func VerifItoa(i int64) string { return itoa(i) }
+
+// VerifCRC16 exposes crc16.
+func VerifCRC16(b []byte) uint16 { return crc16(b) }
+
+// VerifHashTag exposes hashtag.
+func VerifHashTag(b []byte) []byte { return hashtag(b) }
+
+// VerifKeySlot returns the slot which the key is routed by.
+func VerifKeySlot(key []byte) int { return int(crc16(hashtag(key)) & (slotNum - 1)) }
+
+// VerifScanCursorGen exposes scanRequest.genCursor.
+func VerifScanCursorGen(nodeIdx uint16, nodeCursor uint64) uint64 {
+	return new(scanRequest).genCursor(nodeIdx, nodeCursor)
+}
+
+// VerifScanCursorParse exposes scanRequest.parseCursor.
+func VerifScanCursorParse(cursor uint64) (uint16, uint64) {
+	return new(scanRequest).parseCursor(cursor)
+}
+
+// VerifInstance is a copy of a parsed cluster node.
+type VerifInstance struct {
+	ID       string
+	Addr     string
+	Slots    []int
+	Replicas []string
+}
+
+// VerifParseClusterNodes exposes parseClusterNodes.
+func VerifParseClusterNodes(data string) ([]VerifInstance, error) {
+	insts, err := parseClusterNodes(data)
+	if err != nil {
+		return nil, err
+	}
+	res := make([]VerifInstance, 0, len(insts))
+	for _, inst := range insts {
+		vi := VerifInstance{ID: inst.ID, Addr: inst.Addr, Slots: inst.Slots}
+		for _, r := range inst.Replicas {
+			vi.Replicas = append(vi.Replicas, r.Addr)
+		}
+		res = append(res, vi)
+	}
+	sort.Slice(res, func(i, j int) bool { return res[i].ID < res[j].ID })
+	return res, nil
+}
+
+// VerifSetSlotsRefreshTimers sets the slots refresh frequency and minimum
+// rate. It must be called before any redis processor is created.
+func VerifSetSlotsRefreshTimers(freq, minRate time.Duration) {
+	slotsRefFreq = freq
+	slotsRefMinRate = minRate
+}
+
+// VerifCommandTables returns copies of the command tables.
+func VerifCommandTables() (simple, sumResult, readOnly, bannedInCompress []string) {
+	simple = append(simple, simpleCommands...)
+	sumResult = append(sumResult, sumResultCommands...)
+	for cmd := range readOnlyCommands {
+		readOnly = append(readOnly, cmd)
+	}
+	for cmd := range bannedCmdsInCps {
+		bannedInCompress = append(bannedInCompress, cmd)
+	}
+	sort.Strings(readOnly)
+	sort.Strings(bannedInCompress)
+	return
+}
+
+// VerifFilterReq is a request which could be passed through the filter chain
+// of a backend client, like the client's writer does before encoding it.
+type VerifFilterReq struct {
+	chain *FilterChain
+	req   *simpleRequest
+}
+
+// VerifNewFilterReq creates a request with given service config and arguments.
+func VerifNewFilterReq(cfg *service.Config, args [][]byte) *VerifFilterReq {
+	chain := newRequestFilterChain()
+	chain.AddFilter(newCompressFilter(newConfig(cfg)))
+	return &VerifFilterReq{
+		chain: chain,
+		req:   newSimpleRequest(newByteArray(args...)),
+	}
+}
+
+// Do passes the request through the filter chain once, it reports whether the
+// chain stopped the request.
+func (r *VerifFilterReq) Do() (stopped bool) {
+	return r.chain.Do(r.req) == Stop
+}
+
+// Args returns the current arguments of request.
+func (r *VerifFilterReq) Args() [][]byte {
+	args := make([][]byte, len(r.req.Body().Array))
+	for i, v := range r.req.Body().Array {
+		args[i] = v.Text
+	}
+	return args
+}
+
+// Complete sets the response of request, and returns the response after all
+// hooks are called.
+func (r *VerifFilterReq) Complete(resp *RespValue) *RespValue {
+	r.req.SetResponse(resp)
+	return r.req.Response()
+}
+
+// Response returns the response of request if it is done.
+func (r *VerifFilterReq) Response() *RespValue {
+	select {
+	case <-r.req.done:
+		return r.req.Response()
+	default:
+		return nil
+	}
+}
